@@ -42,6 +42,17 @@ _REAL_DATETIME = datetime
 CLOCK: Dict[str, Any] = {"epoch_us": 0, "loop": None, "local_off_min": 0, "fixed_us": None}
 
 
+TZ_OFFSETS = {"UTC": 0, "Etc/GMT-3": 180, "Etc/GMT+7": -420, "Asia/Kathmandu": 345, "Asia/Tokyo": 540, "America/Phoenix": -420}
+
+
+def set_process_tz(name: str) -> None:
+    """The host's local zone is part of the wall clock: naive datetimes are interpreted in it by datetime.astimezone()."""
+    import os
+    import time as _time
+    os.environ["TZ"] = name
+    _time.tzset()
+
+
 def wall_us() -> int:
     if CLOCK["fixed_us"] is not None:
         return CLOCK["fixed_us"]
@@ -108,14 +119,19 @@ def install_seams() -> None:
         sys.modules["simtasks"] = types.ModuleType("simtasks")
 
 
-def call_get_task_delay(task: ScheduledTask, now_us: int) -> Any:
+def call_get_task_delay(task: ScheduledTask, now_us: int, tz: str = "UTC") -> Any:
     """Direct call of the real function under a clock standing at now_us (sweep driver)."""
     install_seams()
     CLOCK["fixed_us"] = now_us
+    CLOCK["local_off_min"] = TZ_OFFSETS.get(tz, 0)
+    if tz != "UTC":
+        set_process_tz(tz)
     try:
         return _orig_get_task_delay(task)
     finally:
         CLOCK["fixed_us"] = None
+        if tz != "UTC":
+            set_process_tz("UTC")
 
 
 # ------------------------------------------------------------------ time values
@@ -462,6 +478,7 @@ def simulate(script: dict) -> SRun:
     loop = world.loop
     CLOCK["epoch_us"] = script["start"]["epoch_us"]
     CLOCK["local_off_min"] = script["start"].get("local_off_min", 0)
+    set_process_tz(script["start"].get("tz", "UTC"))
     CLOCK["loop"] = loop
     CLOCK["fixed_us"] = None
     run = SRun()
@@ -498,6 +515,7 @@ def simulate(script: dict) -> SRun:
         finally:
             asyncio.set_event_loop(None)
             CLOCK["loop"] = None
+            set_process_tz("UTC")
             if gc_was:
                 gc.enable()
     return run
